@@ -112,14 +112,15 @@ def run(ctx):
         fnp = 'io_loop::IoLoop::run_amqp_handshake'
         rows = P.table(ctx, fnp, ['self', 'stream', 'options', 'have_written_to_socket'])
         site = ctx.site(fnp)
-        loop = 'io_loop::IoLoop::run_io_loop(self, stream, %sStart(options), io_loop::IoLoop::handle_handshake_event, have_written_to_socket, io_loop::IoLoop::is_handshake_done)' % HS
+        loop = 'io_loop::IoLoop::run_io_loop(self, stream, $m0, io_loop::IoLoop::handle_handshake_event, have_written_to_socket, io_loop::IoLoop::is_handshake_done)'
         okr = [x for x in rows if x.conds and x.conds[0] == (loop, 'Ok(())')]
         err = [x for x in rows if x.conds and x.conds[0] == (loop, 'Err(_)')]
+        r.check('starts-in-Start', all('let $m0 = %sStart(options)' % HS in x.effects for x in rows), site, built=[x.effects[:1] for x in rows][:1], expected='state initialised to Start(options)')
         r.check('loop-call', len(okr) == 3 and len(err) == 2, site, built=[x.cond_strs()[:1] for x in rows], expected='run_io_loop(.., handle_handshake_event, .., is_handshake_done) starting in state Start(options)')
         got = {x.conds[-1][1]: (x.value_str(), x.done) for x in okr}
-        r.eq('Done', got.get(HS + 'Done(_, _)'), ('Ok((state.Done.0, state.Done.1))', None), site)
+        r.eq('Done', got.get(HS + 'Done(_, _)'), ('Ok(($m0.Done.0, $m0.Done.1))', None), site)
         r.eq('ServerClosing', got.get(HS + 'ServerClosing(_)'),
-             ('errors::ServerClosedConnectionSnafu::fail(errors::ServerClosedConnectionSnafu{code: state.ServerClosing.0.reply_code, message: state.ServerClosing.0.reply_text})', None), site)
+             ('errors::ServerClosedConnectionSnafu::fail(errors::ServerClosedConnectionSnafu{code: $m0.ServerClosing.0.reply_code, message: $m0.ServerClosing.0.reply_text})', None), site)
         e1 = [x for x in err if x.conds[-1][1] == '(%sSecure(_, _), errors::Error::UnexpectedSocketClose)' % HS]
         e2 = [x for x in err if x.conds[-1][1] == '(_, _)']
         r.check('socket-closed-after-StartOk', len(e1) == 1 and e1[0].value_str() == 'errors::InvalidCredentialsSnafu::fail(errors::InvalidCredentialsSnafu)', site, built=[x.row() for x in err],
@@ -201,7 +202,7 @@ def run(ctx):
         rets = [e for e in evs if e.kind == 'ret' and 'ConnectionTimeout' in S.show(e.term)]
         if r.check('timeout-return', len(rets) == 1, ctx.site(fnp), built=[S.show(e.term) for e in rets]):
             gs = [(g[1], g[3]) for g in rets[0].guards if g[2] == 'if']
-            want = [('then', 'mio::Events::is_empty(events)'), ('then', 'let Some(_) = self.connection_timeout'),
+            want = [('then', 'mio::Events::is_empty($m1)'), ('then', 'let Some(_) = self.connection_timeout'),
                     ('then', '(std::time::Instant::elapsed(std::time::Instant::now()) > self.connection_timeout.Some.0)')]
             r.eq('timeout-guards', gs, want, ctx.site(fnp, rets[0].node), why='only an empty poll that lasted longer than the configured timeout')
         polls = [e for e in evs if e.kind == 'call' and e.callee == 'mio::Poll::poll']
